@@ -20,6 +20,7 @@ import (
 // alphabet  1..3 nodes; per node a cursor chain of 1..3 steps with cursors from {1, 2, 2^47, 2^48-1};
 //           keys spread over the steps; MATCH/COUNT/TYPE argument combinations; client supplied start
 //           cursors from {0, 1, 2^48, 2*2^48+5, 3*2^48, 2^63-1, -1, x, 2^64}
+//           a periodic slot refresh between any two calls of an iteration (2-4 nodes)
 // bound     every combination of chains (17 shapes per node), iteration step limit 20
 // oracle    iteration reaches 0; union of returned keys = union of the nodes' key sets; every node gets
 //           cursor 0 exactly once and its own chain in order; nodes are not revisited; extra arguments
@@ -49,6 +50,7 @@ type c18case struct {
 	Extra     []string   `json:"extra,omitempty"`
 	Start     string     `json:"start,omitempty"`
 	Pipelined bool       `json:"pipelined,omitempty"` // two iterations in flight at once
+	Refresh   bool       `json:"refresh,omitempty"`   // a periodic slot refresh runs between any two SCAN calls
 }
 
 func c18run(cs c18case) (sig, detail string) {
@@ -147,6 +149,13 @@ func c18run(cs c18case) (sig, detail string) {
 			if steps > 20 {
 				sig, detail = "iteration-does-not-terminate", fmt.Sprintf("still at cursor %s after 20 calls", cursor)
 				return
+			}
+			if cs.Refresh && steps > 1 {
+				// the node set does not change; the proxy just refreshes its routing table
+				s.RefreshRound()
+				sched.AdvanceTime(int64(slotsRefFreq) + 1)
+				sched.WaitQuiescent()
+				s.RefreshRound()
 			}
 			args := append([]string{"SCAN", cursor}, cs.Extra...)
 			v, err := c.Do(args...)
@@ -261,6 +270,14 @@ func c18scan(env sched.Env) *sched.Report {
 			}
 		}
 	}
+	// a slot refresh between the calls of one iteration (unchanged node set)
+	for _, a := range shapes[:6] {
+		for _, b := range shapes[:6] {
+			try(c18case{Chains: [][]string{a, b}, Refresh: true})
+			try(c18case{Chains: [][]string{a, b, {"1"}}, Refresh: true})
+			try(c18case{Chains: [][]string{a, {"2"}, b, {}}, Refresh: true})
+		}
+	}
 	for _, a := range shapes {
 		if len(a) > 0 {
 			try(c18case{Chains: [][]string{a}, Pipelined: true})
@@ -315,7 +332,52 @@ func c18scan(env sched.Env) *sched.Report {
 	return rep
 }
 
+// C18 (S): one iteration over two nodes under all schedules within bounds. Node 0 finishes at once (its reply
+// carries node cursor 0, which the proxy must turn into "node 1, cursor 0" before the reply becomes visible
+// to the session writer); node 1 takes one intermediate step.
+func c18schedBody() {
+	cl := cluster.New(2, 0, 2)
+	cl.Nodes[0].ScanChain = map[string]cluster.ScanStep{"0": {Next: "0", Keys: []string{"key0"}}}
+	cl.Nodes[1].ScanChain = map[string]cluster.ScanStep{"0": {Next: "5", Keys: []string{"key1"}}, "5": {Next: "0", Keys: []string{"key2"}}}
+	s := vfStartStack(cl, vfSvcConfig(0, nil, 0))
+	c := s.NewClient("c0")
+	cursor := "0"
+	var cursors []string
+	got := map[string]bool{}
+	for step := 0; step < 6; step++ {
+		v, err := c.Do("SCAN", cursor)
+		if err != nil || v.Kind != '*' || len(v.Arr) != 2 {
+			sched.Fail("scan-reply-shape / schedules", fmt.Sprintf("SCAN %s -> %s %v", cursor, v, err))
+			return
+		}
+		for _, k := range v.Arr[1].Arr {
+			got[string(k.Str)] = true
+		}
+		cursor = string(v.Arr[0].Str)
+		cursors = append(cursors, cursor)
+		if cursor == "0" {
+			break
+		}
+	}
+	// (node 1, 0), (node 1, 5), (node 2, 0) = past the last node, which the next call answers with the terminating 0
+	want := []string{"281474976710656", "281474976710661", "562949953421312", "0"}
+	if strings.Join(cursors, ",") != strings.Join(want, ",") {
+		sched.Fail("cursor-given-to-client-does-not-encode-node / schedules", fmt.Sprintf("the client received cursors %v, expected %v (keys seen %d of 3)", cursors, want, len(got)))
+	}
+	if len(got) != 3 {
+		sched.Fail("keys-never-returned / schedules", fmt.Sprintf("keys seen %v", got))
+	}
+	sched.SetOutcome("ok")
+}
+
 func init() {
+	sched.Register(&sched.Scenario{Name: "C18/scan-schedules", Setup: func(tier string) (sched.Config, func()) {
+		b := sched.Bounds{P: 1, F: 1, Sel: 1}
+		if tier == "thorough" {
+			b = sched.Bounds{P: 2, F: 2, Sel: 1}
+		}
+		return sched.Config{Bounds: b, Iterative: true, MaxSteps: 100000}, c18schedBody
+	}})
 	sched.Register(&sched.Scenario{Name: "C18/scan", Custom: c18scan, ReplayCustom: func(in json.RawMessage) []sched.Failure {
 		var cs c18case
 		json.Unmarshal(in, &cs)
